@@ -452,6 +452,9 @@ class EstimationStep(ExecutionStep):
     def from_dict(cls, d: dict[str, Any]) -> EstimationStep:
         d = dict(d)
         ExecutionStep._adjust_dict(d)
+        # NOTE: A dict that went through JSON has lists instead of tuples
+        d['predictions'] = tuple(d['predictions'])
+        d['residuals'] = tuple(d['residuals'])
         return cls(**d)
 
     def __repr__(self):
